@@ -1,4 +1,4 @@
--- PINNED by bin/pin_tables: copy of Gen/Dispatch.lean as generated from /repo at e517f60 — regenerate, do not edit
+-- PINNED by bin/pin_tables: copy of Gen/Dispatch.lean as generated from /repo at e5e66c4 — regenerate, do not edit
 namespace Ggql.Pinned
 def dispatchOrder : List String := ["resolver", "any", "reflect"]
 def opFallbackAnyName : Bool := false
@@ -8,6 +8,10 @@ def subtypeNarrow : Bool := false
 def dupScalarDropped : Bool := false
 def dirArgWrapperAccepted : Bool := false
 def descRaw : Bool := false
+def schemaDuringScan : Bool := false
+def objectUnchecked : Bool := false
+def inputDefaultsRaw : Bool := true
 def listNotCoerced : Bool := false
 def symbolUnchecked : Bool := false
+def symbolBaseEnum : Bool := false
 end Ggql.Pinned
